@@ -232,7 +232,7 @@ def shard_scale(args):
     ordinary and very wide limits; as FmtStr and as plain str."""
     tier, seed, idx, nshards = args
     acc = Acc(seed=seed, sample_stride=4999)
-    specs = C.scale_specs(tier == "thorough", shapes=("words", "runs7", "words", "one", "unit_runs"))
+    specs = C.scale_specs(tier == "thorough", shapes=("words", "runs7", "wide_word", "one", "unit_runs", "wide"))
     for si in range(idx, len(specs), nshards):
         spec = specs[si]
         f = C.build(spec)
@@ -250,6 +250,74 @@ def shard_scale(args):
                 check(acc, text, [(c, ()) for c in text], columns, dict(case, **{"as": "str"}))
         if C.snapshot(f) != snap:
             acc.failure("C16:operand_changed", shown, "")
+    return acc.export()
+
+
+def shard_gaps_and_growth(args):
+    """(a) 14..80 words (40..330 runs) separated by whitespace of 1..3 characters in which an EMPTY run of other formatting sits at the
+    start, strictly inside, or at the end of the gap; (b) a growing log: the same limit, texts that extend the previous call's text -
+    continuing its last run, or with the last run (or the whole single run) re-formatted, or shorter, or equal."""
+    tier, seed, idx = args
+    acc = Acc(seed=seed, sample_stride=997)
+    A, B, E = (("fg", 31),), (("bg", 44),), (("bold", True), ("fg", 32))
+    k = 0
+    for nwords in (14, 21, 45, 80):
+        for pattern in range(6):
+            for wordlen in (1, 3):
+                k += 1
+                if k % 4 != idx:
+                    continue
+                spec = []
+                for wi in range(nwords):
+                    spec.append(("abcdefghij"[wi % 10] * (1 + (wi + wordlen) % (wordlen + 2)), A if wi % 2 else ()))
+                    if wi == nwords - 1:
+                        break
+                    kind = (wi + pattern) % 6
+                    if kind == 0:
+                        spec += [(" ", B)]
+                    elif kind == 1:
+                        spec += [(" ", B), ("", E), (" ", B)]  # empty run strictly inside a uniform gap
+                    elif kind == 2:
+                        spec += [("", E), ("  ", B)]
+                    elif kind == 3:
+                        spec += [("  ", B), ("", E)]
+                    elif kind == 4:
+                        spec += [(" ", B), ("", ()), ("\t", B), ("", E), (" ", B)]
+                    else:
+                        spec += [(" ", B), (" ", A)]  # a gap that is not uniform
+                spec = tuple(spec)
+                f = C.build(spec)
+                fc = C.cells(f)
+                for columns in (3, 7, 12, 20, 40, 79, 200, 1000):
+                    case = {"f": {"words": nwords, "runs": len(spec), "first_runs": C.show_spec(spec[:8])}, "columns": columns}
+                    acc.case(True, key=("gaps", nwords, pattern, wordlen, columns), sample=case)
+                    acc.transitions += 1
+                    check(acc, f, fc, columns, case)
+    # (b) growing log
+    for base_len in (40, 650, 1500):
+        for shape in ("words", "one", "runs7"):
+            k += 1
+            if k % 4 != idx:
+                continue
+            for columns in (20, 80):
+                spec = C.scale_spec(base_len, shape)
+                for step in range(8):
+                    kind = ("extend_same", "reformat_last", "extend_same", "extend_other", "same_again", "shorter", "reformat_last", "extend_same")[step]
+                    last_t, last_a = spec[-1]
+                    if kind == "extend_same":
+                        spec = spec[:-1] + ((last_t + " more text %d" % step, last_a),)
+                    elif kind == "reformat_last":
+                        spec = spec[:-1] + ((last_t + " and on", (("fg", 34),) if last_a != (("fg", 34),) else (("bg", 45),)),)
+                    elif kind == "extend_other":
+                        spec = spec + ((" tail%d" % step, (("underline", True),)),)
+                    elif kind == "shorter":
+                        spec = spec[:-1] + ((last_t[: max(1, len(last_t) - 5)], last_a),)
+                    f = C.build(spec)
+                    fc = C.cells(f)
+                    case = {"growing_log": {"start_characters": base_len, "shape": shape, "step": step, "change": kind, "characters": len(fc)}, "columns": columns}
+                    acc.case(True, key=("grow", base_len, shape, columns, step), sample=case)
+                    acc.transitions += 1
+                    check(acc, f, fc, columns, case)
     return acc.export()
 
 
@@ -330,6 +398,8 @@ def run(ctx):
         rep.merge(d, "many_words")
     for d in ctx.pmap(shard_scale, [(ctx.tier, ctx.seed, i, 32) for i in range(32)]):
         rep.merge(d, "scale_sweep")
+    for d in ctx.pmap(shard_gaps_and_growth, [(ctx.tier, ctx.seed, i) for i in range(4)]):
+        rep.merge(d, "empty_runs_in_gaps_and_growing_logs")
     for d in ctx.pmap(shard_special, [(ctx.tier, ctx.seed, i) for i in range(2)]):
         rep.merge(d, "huge_word_and_result_ownership")
     ns = 256 if ctx.thorough else 64
